@@ -18,7 +18,7 @@
    Outside the model ([WUnmod], counted by the correspondence, never compared): maps of containers
    (SourceLocation.children, reachable only by writing `sourceLocations...` in a .j5s file), map keys and scalar-split
    delimiters that are not ASCII / not ".", float literals of more than 300 runes, a scalar split nested more than
-   3 deep.  No proofs here. *)
+   3 deep, (in CmpbWalkFile.v) a oneof message with two members set.  No proofs here. *)
 From Coq Require Import Ascii String List NArith ZArith Bool Arith.
 From J5V.lib Require Import Text Outcome.
 From J5V.gen Require WalkSchemaGen.
@@ -229,18 +229,15 @@ Record wstate := mkWS { ws_loc : loc; ws_vals : list (path * sval) }.
 Inductive wres (A : Type) :=
 | ROk (a : A) (s : wstate)
 | RErr (sp : option span) (code : N)      (* the first error; its position if one was attached so far *)
-| RPanic (site : string)
 | RUnmod (why : string).
 Arguments ROk {A} a s.
 Arguments RErr {A} sp code.
-Arguments RPanic {A} site.
 Arguments RUnmod {A} why.
 
 Definition rbind {A B} (m : wres A) (k : A -> wstate -> wres B) : wres B :=
   match m with
   | ROk a s => k a s
   | RErr sp c => RErr sp c
-  | RPanic p => RPanic p
   | RUnmod w => RUnmod w
   end.
 (* errpos.AddPosition: only when the error has none yet *)
@@ -291,7 +288,7 @@ Definition nat_dec (n : nat) : string := nat_dec_fuel (S n) n "".
 (* ------------------------------------------------------------------ containers and scopes *)
 Inductive cont := CSchema (s : string) | CMap (k : skind).
 Record cfield := mkCF { cf_cont : cont; cf_loc : path; cf_spec : bspec }.
-Record scope := mkScope { sc_blocks : list cfield; sc_leaf : cfield; sc_root : option cfield }.
+Record scope := mkScope { sc_blocks : list cfield; sc_leaf : cfield; sc_root : cfield }.
 
 Definition cont_props (c : cont) : list pdef :=
   match c with
@@ -352,7 +349,7 @@ Fixpoint walk_path (c : cfield) (p : path) (hint : span) (s : wstate) : wres cfi
 Definition walk_to_child (c : cfield) (p : path) (hint : span) (s : wstate) : wres cfield :=
   match p with [] => ROk c s | _ => walk_path c p hint s end.
 
-Definition new_child_scope (c : cfield) : scope := mkScope [c] c (Some c).
+Definition new_child_scope (c : cfield) : scope := mkScope [c] c c.
 
 (* scope.go ChildBlock *)
 Definition child_block (sc : scope) (n : string) (hint : span) (s : wstate) : wres scope :=
@@ -426,18 +423,20 @@ Fixpoint walk_scope (sc : scope) (p : list pelem) (l : span) (s : wstate) : wres
       match child_block sc n l' s with
       | ROk sc' s' => walk_scope sc' r l' s'
       | RErr _ c => RErr po c                      (* positioned at the identifier, or a schema error without *)
-      | RPanic x => RPanic x
       | RUnmod x => RUnmod x
       end
   end.
 
 Inductive sflag := ResetScope | KeepScope.
-Definition tail_scope (sc : scope) : scope := mkScope [sc_leaf sc] (sc_leaf sc) None.
 Definition merge_scope (a b : scope) : scope := mkScope (sc_blocks a ++ sc_blocks b) (sc_leaf b) (sc_root a).
 
 Definition build_scope (sc : scope) (sp : list string) (up : list token) (f : sflag) (s : wstate) : wres scope :=
   match combine_path sp up with
-  | [] => ROk (match f with KeepScope => sc | ResetScope => tail_scope sc end) s
+  | [] => match f with
+          | KeepScope => ROk sc s
+          | ResetScope => RUnmod "TailScope: empty type reference"   (* scope.go TailScope leaves the root block nil; the
+                                                                        only Reset caller is doFullBlock, see do_stmt *)
+          end
   | full => rbind (walk_scope sc full span0 s) (fun c s' =>
               ROk (match f with ResetScope => c | KeepScope => merge_scope sc c end) s')
   end.
@@ -460,165 +459,141 @@ Definition split_dot (l : list N) : list (list N) := split_on 46 l.
 
 Definition split_at {A} (n : nat) (l : list A) : list A * list A := (firstn n l, skipn n l).
 
-(* walk_context.go setAttribute and setContainerFromScalar (mutually recursive through a container that is set
-   from a scalar: `object:foo.Bar` sets Ref{package, schema}); [depth] bounds that nesting *)
+(* ---- walk_context.go setContainerFromScalar, after the value has been cut into pieces: [f] sets one attribute
+   of the container's scope (it is setAttribute again: `object:foo.Bar` sets Ref{package, schema}) *)
+Definition setter : Type := scope -> list string -> aval -> wstate -> wres unit.
+
+Fixpoint set_each (f : setter) (sc : scope) (ps : list (list string)) (vs : list aval) (s : wstate) : wres unit :=
+  match ps, vs with
+  | pth :: ps', v :: vs' => rbind (f sc pth v s) (fun _ s' => set_each f sc ps' vs' s')
+  | _, _ => ROk tt s
+  end.
+
+Definition join_remainder (rem : list aval) (dflt : aval) : wres aval :=
+  let strs := map as_string rem in
+  match find (fun pr => match snd pr with None => true | Some _ => false end) (combine rem strs) with
+  | Some (bad, _) => RErr (Some (aval_span bad)) E_SCALAR
+  | None =>
+      let joined := join_with 46 (map (fun o => match o with Some l => l | None => [] end) strs) in
+      let f := match rem with x :: _ => x | [] => dflt end in
+      let l := last rem dflt in
+      ROk (AStr joined (fst (aval_span f), snd (aval_span l))) (mkWS (Loc span0 []) [])
+  end.
+
+Definition set_from_pieces (f : setter) (csc : scope) (ss : split) (vals0 : list aval) (s : wstate) : wres unit :=
+  let vals := if sp_rtl ss then rev vals0 else vals0 in
+  let nreq := length (sp_req ss) in
+  if Nat.ltb (length vals) nreq then RErr None E_SPLIT_COUNT else
+  let into_req := firstn nreq vals in
+  let rest := skipn nreq vals in
+  rbind (set_each f csc (sp_req ss) into_req s) (fun _ s5 =>
+    match rest with
+    | [] => ROk tt s5
+    | _ =>
+        let nopt := length (sp_opt ss) in
+        let opt := if Nat.ltb nopt (length rest) then firstn nopt rest else rest in
+        let rest2 := if Nat.ltb nopt (length rest) then skipn nopt rest else [] in
+        rbind (set_each f csc (sp_opt ss) opt s5) (fun _ s6 =>
+          match rest2 with
+          | [] => ROk tt s6
+          | first :: _ =>
+              match sp_rem ss with
+              | None => RErr None E_SPLIT_COUNT
+              | Some rp =>
+                  let rem := if sp_rtl ss then rev rest2 else rest2 in
+                  match join_remainder rem first with
+                  | ROk j _ => f csc rp j s6
+                  | RErr p c => RErr p c
+                  | RUnmod w => RUnmod w
+                  end
+              end
+          end)
+    end).
+
+(* the pieces of a value for a container with a scalar split *)
+Definition split_pieces (ss : split) (val : aval) : wres (list aval) :=
+  match sp_delim ss with
+  | Some dl =>
+      if negb (String.eqb dl ".") then RUnmod "scalar split delimiter" else
+      match as_string val with
+      | None => RErr (Some (aval_span val)) E_SCALAR
+      | Some str => ROk (map (fun x => AStr x (aval_span val)) (split_dot str)) (mkWS (Loc span0 []) [])
+      end
+  | None =>
+      match val with
+      | AArr vs _ => ROk (map aval_of vs) (mkWS (Loc span0 []) [])
+      | _ => RErr None E_NO_SPLIT
+      end
+  end.
+
+Definition set_container_from_scalar (f : setter) (csc : scope) (spec : bspec) (val : aval) (s : wstate) : wres unit :=
+  match bs_split spec with
+  | None => RErr None E_NO_SPLIT
+  | Some ss =>
+      match split_pieces ss val with
+      | ROk vals0 _ => set_from_pieces f csc ss vals0 s
+      | RErr p c => RErr p c
+      | RUnmod w => RUnmod w
+      end
+  end.
+
+(* the leaf of setAttribute: an array value (or an appended scalar) into an array of scalars, a scalar into a scalar *)
+Definition set_leaf (fk : fkind) (lp : path) (val : aval) (app : bool) (s : wstate) : wres unit :=
+  let arr : option (list aval) :=
+    match val with
+    | AArr vs _ => Some (map aval_of vs)
+    | _ => if app then Some [val] else None
+    end in
+  match arr with
+  | Some vs =>
+      match fk with
+      | FArrScalar k => append_all k lp vs s
+      | _ => RErr (Some (aval_span val)) E_BAD_TYPE
+      end
+  | None =>
+      match fk with
+      | FScalar k =>
+          match conv_scalar k val with
+          | ConvOk x => ROk tt (store lp x s)
+          | ConvErr => RErr (Some (aval_span val)) E_SCALAR
+          | ConvUnmod => RUnmod "float literal"
+          end
+      | _ => RErr (Some (aval_span val)) E_BAD_TYPE
+      end
+  end.
+
+(* the error of a lookup is re-positioned by the caller *)
+Definition repos {A} (p : option span) (m : wres A) : wres A :=
+  match m with RErr _ c => RErr p c | o => o end.
+
+(* walk_context.go setAttribute; [depth] bounds the nesting of containers set from scalars *)
 Fixpoint set_attribute (depth : nat) (sc : scope) (p : list string) (ref : list token) (val : aval) (app : bool)
                        (s : wstate) : wres unit :=
   match pop_last (combine_path p ref) with
   | None => RErr None E_EMPTY_PATH
   | Some ((lname, lpos), to_block) =>
       rbind (walk_scope sc to_block span0 s) (fun parent s1 =>
-        match scope_field parent lname (aval_span val) app s1 with
-        | RErr _ c => RErr lpos c
-        | RPanic x => RPanic x
-        | RUnmod x => RUnmod x
-        | ROk (fk, lp) s2 =>
-            match fk with
-            | FContainer =>
-                if app then RErr (Some (aval_span val)) E_APPEND_CONTAINER else
-                match child_block parent lname (aval_span val) s2 with
-                | RErr _ c => RErr (Some (aval_span val)) c
-                | RPanic x => RPanic x
-                | RUnmod x => RUnmod x
-                | ROk csc s3 =>
-                    match depth with
-                    | O => RUnmod "nested scalar split"
-                    | S d =>
-                        (* setContainerFromScalar(bs, val) in the container's scope *)
-                        match bs_split (cf_spec (sc_leaf csc)) with
-                        | None => RErr None E_NO_SPLIT
-                        | Some ss =>
-                            let pieces : wres (list aval) :=
-                              match sp_delim ss with
-                              | Some dl =>
-                                  if negb (String.eqb dl ".") then RUnmod "scalar split delimiter" else
-                                  match as_string val with
-                                  | None => RErr (Some (aval_span val)) E_SCALAR
-                                  | Some str => ROk (map (fun x => AStr x (aval_span val)) (split_dot str)) s3
-                                  end
-                              | None =>
-                                  match val with
-                                  | AArr vs _ => ROk (map aval_of vs) s3
-                                  | _ => RErr None E_NO_SPLIT
-                                  end
-                              end in
-                            rbind pieces (fun vals0 s4 =>
-                              let vals := if sp_rtl ss then rev vals0 else vals0 in
-                              let nreq := length (sp_req ss) in
-                              if Nat.ltb (length vals) nreq then RErr None E_SPLIT_COUNT else
-                              let '(into_req, rest) := split_at nreq vals in
-                              let set_each :=
-                                fix go (ps : list (list string)) (vs : list aval) (s : wstate) : wres unit :=
-                                  match ps, vs with
-                                  | pth :: ps', v :: vs' => rbind (set_attribute d csc pth [] v false s) (fun _ s' => go ps' vs' s')
-                                  | _, _ => ROk tt s
-                                  end in
-                              rbind (set_each (sp_req ss) into_req s4) (fun _ s5 =>
-                                match rest with
-                                | [] => ROk tt s5
-                                | _ =>
-                                    let nopt := length (sp_opt ss) in
-                                    let '(opt, rest2) := if Nat.ltb nopt (length rest) then split_at nopt rest else (rest, []) in
-                                    rbind (set_each (sp_opt ss) opt s5) (fun _ s6 =>
-                                      match rest2 with
-                                      | [] => ROk tt s6
-                                      | first :: _ =>
-                                          match sp_rem ss with
-                                          | None => RErr None E_SPLIT_COUNT
-                                          | Some rp =>
-                                              let rem := if sp_rtl ss then rev rest2 else rest2 in
-                                              let strs := map as_string rem in
-                                              match find (fun pr => match snd pr with None => true | Some _ => false end) (combine rem strs) with
-                                              | Some (bad, _) => RErr (Some (aval_span bad)) E_SCALAR
-                                              | None =>
-                                                  let joined := join_with 46 (map (fun o => match o with Some l => l | None => [] end) strs) in
-                                                  let f := match rem with x :: _ => x | [] => first end in
-                                                  let l := last rem first in
-                                                  set_attribute d csc rp [] (AStr joined (fst (aval_span f), snd (aval_span l))) false s6
-                                              end
-                                          end
-                                      end)
-                                end))
-                        end
-                    end
-                end
-            | _ =>
-                let arr : option (list aval) :=
-                  match val with
-                  | AArr vs _ => Some (map aval_of vs)
-                  | _ => if app then Some [val] else None
-                  end in
-                match arr with
-                | Some vs =>
-                    match fk with
-                    | FArrScalar k => append_all k lp vs s2
-                    | _ => RErr (Some (aval_span val)) E_BAD_TYPE
-                    end
-                | None =>
-                    match fk with
-                    | FScalar k =>
-                        match conv_scalar k val with
-                        | ConvOk x => ROk tt (store lp x s2)
-                        | ConvErr => RErr (Some (aval_span val)) E_SCALAR
-                        | ConvUnmod => RUnmod "float literal"
-                        end
-                    | _ => RErr (Some (aval_span val)) E_BAD_TYPE
-                    end
-                end
-            end
-        end)
+        rbind (repos lpos (scope_field parent lname (aval_span val) app s1)) (fun fl s2 =>
+          match fst fl with
+          | FContainer =>
+              if app then RErr (Some (aval_span val)) E_APPEND_CONTAINER else
+              rbind (repos (Some (aval_span val)) (child_block parent lname (aval_span val) s2)) (fun csc s3 =>
+                match depth with
+                | O => RUnmod "nested scalar split"
+                | S d => set_container_from_scalar (fun sc' p' v' s' => set_attribute d sc' p' [] v' false s')
+                                                   csc (cf_spec (sc_leaf csc)) val s3
+                end)
+          | fk => set_leaf fk (snd fl) val app s2
+          end))
   end.
 
 Definition split_depth : nat := 3.
 Definition set_attr := set_attribute split_depth.
 
-(* setContainerFromScalar called directly (walkTags, a left-over tag on a type with a scalar split): the
-   container is the current scope's leaf.  Same code as above with the scope as it is. *)
+(* setContainerFromScalar called directly (walkTags, a left-over tag on a type with a scalar split): in the
+   scope as it is *)
 Definition set_container_from_tag (sc : scope) (spec : bspec) (t : tag) (s : wstate) : wres unit :=
-  match bs_split spec with
-  | None => RErr None E_NO_SPLIT
-  | Some ss =>
-      match sp_delim ss with
-      | None => RErr None E_NO_SPLIT                       (* a TagValue is never an array *)
-      | Some dl =>
-          if negb (String.eqb dl ".") then RUnmod "scalar split delimiter" else
-          match as_string (ATag t) with
-          | None => RErr (Some (tgstart t, tgend t)) E_SCALAR
-          | Some str =>
-              let sp := (tgstart t, tgend t) in
-              let vals0 := map (fun x => AStr x sp) (split_dot str) in
-              let vals := if sp_rtl ss then rev vals0 else vals0 in
-              let nreq := length (sp_req ss) in
-              if Nat.ltb (length vals) nreq then RErr None E_SPLIT_COUNT else
-              let '(into_req, rest) := split_at nreq vals in
-              let set_each :=
-                fix go (ps : list (list string)) (vs : list aval) (s : wstate) : wres unit :=
-                  match ps, vs with
-                  | pth :: ps', v :: vs' => rbind (set_attr sc pth [] v false s) (fun _ s' => go ps' vs' s')
-                  | _, _ => ROk tt s
-                  end in
-              rbind (set_each (sp_req ss) into_req s) (fun _ s5 =>
-                match rest with
-                | [] => ROk tt s5
-                | _ =>
-                    let nopt := length (sp_opt ss) in
-                    let '(opt, rest2) := if Nat.ltb nopt (length rest) then split_at nopt rest else (rest, []) in
-                    rbind (set_each (sp_opt ss) opt s5) (fun _ s6 =>
-                      match rest2 with
-                      | [] => ROk tt s6
-                      | _ =>
-                          match sp_rem ss with
-                          | None => RErr None E_SPLIT_COUNT
-                          | Some rp =>
-                              let rem := if sp_rtl ss then rev rest2 else rest2 in
-                              let joined := join_with 46 (map (fun a => match as_string a with Some l => l | None => [] end) rem) in
-                              set_attr sc rp [] (AStr joined sp) false s6
-                          end
-                      end)
-                end)
-          end
-      end
-  end.
+  set_container_from_scalar (fun sc' p' v' s' => set_attr sc' p' [] v' false s') sc spec (ATag t) s.
 
 (* ------------------------------------------------------------------ tags and qualifiers (c2.go) *)
 Definition tag_span (t : tag) : span := (tgstart t, tgend t).
@@ -715,47 +690,71 @@ Fixpoint walk_qualifiers (qs : list tag) (sc : scope) (spec : bspec) (s : wstate
 
 (* ------------------------------------------------------------------ statements (doBody, doFullBlock, doBlock) *)
 Definition set_description (sc : scope) (val : aval) (s : wstate) : wres unit :=
-  match sc_root sc with
-  | None => RPanic "SetDescription: nil root block (TailScope)"
-  | Some root =>
-      match bs_desc (cf_spec root) with
-      | None => RErr None E_NO_DESC
-      | Some f => set_attr sc [f] [] val false s
+  match bs_desc (cf_spec (sc_root sc)) with
+  | None => RErr None E_NO_DESC
+  | Some f => set_attr sc [f] [] val false s
+  end.
+
+(* what a statement leaves: the state, or the first error WITH its position (doBody adds the statement's position
+   to an error that has none), or the one panic the walker can reach on a syntax tree: a block whose type
+   reference is empty (BuildScope -> TailScope -> a scope without root block -> SetDescription dereferences it;
+   parser.NewReference panics on such a reference first: C11) *)
+Inductive sres :=
+| SOk (s : wstate)
+| SErr (sp : span) (code : N)
+| SPanic (site : string)
+| SUnmod (why : string).
+
+Definition lift (sp : span) (m : wres unit) : sres :=
+  match m with
+  | ROk _ s => SOk s
+  | RErr (Some p) c => SErr p c
+  | RErr None c => SErr sp c
+  | RUnmod w => SUnmod w
+  end.
+
+(* doFullBlock + doBlock up to the body: the scope the body is walked in *)
+Definition open_block (sc : scope) (h : header) (s : wstate) : wres scope :=
+  rbind (build_scope sc [] (htype h) ResetScope s) (fun bsc s1 =>
+    let spec0 := cf_spec (sc_leaf bsc) in
+    rbind (walk_tags (htags h) true bsc spec0 (ref_end (htype h)) s1) (fun r1 s2 =>
+      rbind (walk_qualifiers (hquals h) (fst r1) (snd r1) s2) (fun r2 s3 =>
+        let bsc' := fst r2 in
+        match hdesc h with
+        | None => ROk bsc' s3
+        | Some d =>
+            match bs_desc spec0 with
+            | None => RErr (Some (dsstart d, dsend d)) E_NO_DESC
+            | Some f => rbind (set_attr bsc' [f] [] (AStr (dvalue d) (hstart h, hend h)) false s3) (fun _ s4 => ROk bsc' s4)
+            end
+        end))).
+
+Fixpoint do_stmt (sc : scope) (st : stmt) (s : wstate) : sres :=
+  match st with
+  | SDesc d => lift (dsstart d, dsend d) (set_description sc (AStr (dvalue d) (dsstart d, dsend d)) s)
+  | SAssign a => lift (astart a, aend a) (set_attr sc [] (akey a) (aval_of (avalue a)) (aappend a) s)
+  | SBlock h body =>
+      match htype h with
+      | [] => SPanic "SetDescription: nil root block after TailScope (empty block type)"
+      | _ =>
+          match open_block sc h s with
+          | ROk bsc s1 =>
+              (fix go (l : list stmt) (s : wstate) : sres :=
+                 match l with
+                 | [] => SOk s
+                 | x :: r => match do_stmt bsc x s with SOk s' => go r s' | o => o end
+                 end) body s1
+          | RErr (Some p) c => SErr p c
+          | RErr None c => SErr (hstart h, hend h) c
+          | RUnmod w => SUnmod w
+          end
       end
   end.
 
-Fixpoint do_stmt (sc : scope) (st : stmt) (s : wstate) : wres unit :=
-  match st with
-  | SDesc d => add_pos (dsstart d, dsend d) (set_description sc (AStr (dvalue d) (dsstart d, dsend d)) s)
-  | SAssign a => add_pos (astart a, aend a) (set_attr sc [] (akey a) (aval_of (avalue a)) (aappend a) s)
-  | SBlock h body =>
-      add_pos (hstart h, hend h)
-        (rbind (build_scope sc [] (htype h) ResetScope s) (fun bsc s1 =>
-           let spec0 := cf_spec (sc_leaf bsc) in
-           rbind (walk_tags (htags h) true bsc spec0 (ref_end (htype h)) s1) (fun r1 s2 =>
-             rbind (walk_qualifiers (hquals h) (fst r1) (snd r1) s2) (fun r2 s3 =>
-               let bsc' := fst r2 in
-               let after_desc : wres unit :=
-                 match hdesc h with
-                 | None => ROk tt s3
-                 | Some d =>
-                     match bs_desc spec0 with
-                     | None => RErr (Some (dsstart d, dsend d)) E_NO_DESC
-                     | Some f => set_attr bsc' [f] [] (AStr (dvalue d) (hstart h, hend h)) false s3
-                     end
-                 end in
-               rbind after_desc (fun _ s4 =>
-                 (fix go (l : list stmt) (s : wstate) : wres unit :=
-                    match l with
-                    | [] => ROk tt s
-                    | x :: r => rbind (do_stmt bsc' x s) (fun _ s' => go r s')
-                    end) body s4)))))
-  end.
-
-Fixpoint do_body (sc : scope) (body : list stmt) (s : wstate) : wres unit :=
+Fixpoint do_body (sc : scope) (body : list stmt) (s : wstate) : sres :=
   match body with
-  | [] => ROk tt s
-  | x :: r => rbind (do_stmt sc x s) (fun _ s' => do_body sc r s')
+  | [] => SOk s
+  | x :: r => match do_stmt sc x s with SOk s' => do_body sc r s' | o => o end
   end.
 
 Definition root_cfield : cfield := mkCF (CSchema WalkSchemaGen.root_schema) [] (cont_spec (CSchema WalkSchemaGen.root_schema)).
@@ -763,4 +762,4 @@ Definition root_scope : scope := new_child_scope root_cfield.
 Definition init_state : wstate := mkWS (Loc span0 []) [].
 
 (* walker.WalkSchema on a fresh SourceFile *)
-Definition walk_schema (body : list stmt) : wres unit := do_body root_scope body init_state.
+Definition walk_schema (body : list stmt) : sres := do_body root_scope body init_state.
